@@ -46,8 +46,8 @@ def case_st(draw, relative=False):
             r = draw(st.sampled_from(rules))
             for m in r['mods']:
                 if m['k'] == 'amount':
-                    base = m.get('v', m.get('lo'))
-                    t = dict(t, amount=round(base + draw(st.sampled_from([-0.011, -0.01, -0.005, 0, 0, 0.005, 0.009, 0.01, 0.011])), 4))
+                    base = draw(st.sampled_from([m.get('v', m.get('lo')), m.get('v', m.get('hi'))]))
+                    t = dict(t, amount=round(base + draw(st.sampled_from([-0.011, -0.01, -0.005, 0, 0, 0.005, 0.009, 0.01, 0.011, -0.3, 0.3])), 4))
                 elif m['k'] == 'date' and m['op'] in ('=', ':'):
                     t = dict(t, date=draw(st.sampled_from([m.get('d') or m['lo'], m.get('hi') or m['d'], None])))
                 elif m['k'] == 'month':
